@@ -41,6 +41,21 @@ func runC03(c *Ctx) {
 			fns = append(fns, f)
 		}
 	}
+	// the decoder is used through Decode alone: every other method changes what is accepted or how it
+	// is read (UseNumber, DisallowUnknownFields) or looks ahead in the stream (More, Token, Buffered,
+	// InputOffset)
+	for _, fn := range fns {
+		for _, call := range callsIn(fn) {
+			g := call.Common().StaticCallee()
+			if g == nil || !strings.HasPrefix(g.String(), "(*encoding/json.Decoder).") {
+				continue
+			}
+			m := strings.TrimPrefix(g.String(), "(*encoding/json.Decoder).")
+			if m != "Decode" && m != "More" {
+				c.violated("R1", "decoder-method "+m+" in "+shortName(fn), p.InstrPos(call), "the JSON decoder is configured or inspected through "+m+": the values the rules see (or where a value is taken to end) are no longer those of a plain Decode of the input bytes")
+			}
+		}
+	}
 	hits := jsonMoreHits(p, fns)
 	if len(hits) == 0 {
 		c.ok("R1", "no-Decoder.More", "", fmt.Sprintf("no call in %d functions", len(fns)))
